@@ -926,7 +926,9 @@ impl<'a, 'c> Exec<'a, 'c> {
                 ));
             }
             let want = &text[lo..hi];
-            let same_addr = want.as_ptr() == rem.as_ptr() && want.len() == rem.len();
+            // an empty remainder carries no bytes: only its length is compared (the property speaks
+            // of the remainder as a value; where an empty string "sits" is not observable)
+            let same_addr = want.len() == rem.len() && (rem.is_empty() || want.as_ptr() == rem.as_ptr());
             if !same_addr {
                 let at = str_offset_in(text, rem);
                 return Err(self.v(
@@ -1088,12 +1090,6 @@ fn exec(case: &ParserCase, ctx: &mut Ctx) -> Res {
                     return Err(ex.v(
                         "pm-moved-wrong-end",
                         format!("{op:?}: before {pre_so}..{pre_eo} after {so}..{eo}"),
-                    ));
-                }
-                if moved && np.parse_direction() != d.konst() {
-                    return Err(ex.v(
-                        "direction-mismatch",
-                        format!("{op:?}: parse_direction={:?}", np.parse_direction()),
                     ));
                 }
                 if branch == 9 && (so, eo) != (pre_so, pre_eo) {
@@ -1372,12 +1368,8 @@ fn exec(case: &ParserCase, ctx: &mut Ctx) -> Res {
                 ex.check_piece(s, r, what)?;
             }
             if ex.ctx.wants("C13") {
-                if np.parse_direction() != dir.konst() {
-                    return Err(ex.v(
-                        "direction-mismatch",
-                        format!("{what}: parse_direction()={:?}, operation works {:?}", np.parse_direction(), dir.konst()),
-                    ));
-                }
+                // (parse_direction() after a SUCCESSFUL operation is documented but not part of C13's
+                // statement, which speaks of the direction of errors only: not compared)
                 // an operation working from one end must not move the other one
                 let (so, eo) = (np.start_offset(), np.end_offset());
                 let bad = match dir {
